@@ -498,6 +498,79 @@ macro_rules! lr_case {
     }};
 }
 
+/// LR parser with the *generated* DefaultBuilder (and generated actions).
+/// The result is an AST value of a grammar-specific type: no leaves.
+#[macro_export]
+macro_rules! lr_def_case {
+    ($m:ident, $id:expr, $partial:expr, $has_layout:expr, $skip_ws:expr) => {{
+        use $crate::case::*;
+        use $crate::parsers::$m as g;
+        struct C;
+        static DEF: CountingDef<g::Def> = CountingDef(&g::PARSER_DEFINITION);
+        impl ParserCase for C {
+            fn id(&self) -> &'static str { $id }
+            fn layout(&self) -> &'static str { "def" }
+            fn glr(&self) -> bool { false }
+            fn partial(&self) -> bool { $partial }
+            fn has_layout(&self) -> bool { $has_layout }
+            fn bytes_input(&self) -> bool { false }
+            fn token_kind_names(&self) -> &'static [&'static str] { g::TOKEN_KIND_NAMES }
+            fn run(&self, input: &[u8], cfg: &RunCfg) -> RunOut {
+                sim_reset(cfg);
+                let via_file = cfg.via_file.clone();
+                let text = std::str::from_utf8(input).ok();
+                if via_file.is_none() && text.is_none() {
+                    return finish_run(Ok(Out::NotApplicable));
+                }
+                let r = std::panic::catch_unwind(std::panic::AssertUnwindSafe(|| {
+                    let lexer = FaultLexer {
+                        inner: rustemo::StringLexer::<g::Context<'_, str>, _, _, _, _>::new($skip_ws, &g::RECOGNIZERS),
+                        all: g::ALL_TOKEN_KINDS,
+                    };
+                    let mut parser = rustemo::LRParser::new(&DEF, g::State::default(), $partial, $has_layout, lexer, g::DefaultBuilder::new());
+                    use rustemo::Parser as _;
+                    let res = match &via_file {
+                        Some(p) => parser.parse_file(p).map(|_| ()),
+                        None => parser.parse(text.unwrap()).map(|_| ()),
+                    };
+                    match res {
+                        Ok(()) => Out::Ok { leaves: vec![], solutions: 1 },
+                        Err(e) => error_to_out(e),
+                    }
+                }));
+                finish_run(r)
+            }
+            fn run_seq(&self, inputs: &[Vec<u8>], cfg: &RunCfg) -> Vec<RunOut> {
+                let texts: Vec<Option<&str>> = inputs.iter().map(|b| std::str::from_utf8(b).ok()).collect();
+                let lexer = FaultLexer {
+                    inner: rustemo::StringLexer::<g::Context<'_, str>, _, _, _, _>::new($skip_ws, &g::RECOGNIZERS),
+                    all: g::ALL_TOKEN_KINDS,
+                };
+                let parser = rustemo::LRParser::new(&DEF, g::State::default(), $partial, $has_layout, lexer, g::DefaultBuilder::new());
+                use rustemo::Parser as _;
+                let mut outs = vec![];
+                for t in texts {
+                    sim_reset(cfg);
+                    let t = match t {
+                        Some(t) => t,
+                        None => {
+                            outs.push(finish_run(Ok(Out::NotApplicable)));
+                            continue;
+                        }
+                    };
+                    let r = std::panic::catch_unwind(std::panic::AssertUnwindSafe(|| match parser.parse(t) {
+                        Ok(_) => Out::Ok { leaves: vec![], solutions: 1 },
+                        Err(e) => error_to_out(e),
+                    }));
+                    outs.push(finish_run(r));
+                }
+                outs
+            }
+        }
+        Box::new(C) as Box<dyn ParserCase>
+    }};
+}
+
 #[macro_export]
 macro_rules! glr_case {
     ($m:ident, $id:expr, $layout:expr, $partial:expr, $has_layout:expr, $skip_ws:expr, $cyclic:expr) => {{
